@@ -11,6 +11,7 @@ import (
 	"go/token"
 	"go/types"
 	"sort"
+	"strconv"
 	"strings"
 )
 
@@ -85,39 +86,145 @@ func (c *Ctx) stringHelperClass(fn *types.Func) (class, why string) {
 	}
 	x := c.NewSX()
 	paths := x.Run(fd)
-	if len(paths) != 1 || paths[0].Why != "" || paths[0].End != "return" || len(paths[0].Vals) != 1 || len(paths[0].Conds()) != 0 {
-		return "", "helper is not a straight-line encoder (a data-dependent shortcut emits text the encoder never saw)"
+	// Every feasible path must be an accepted shape of one class. A path is infeasible when one of its conditions contradicts
+	// what is known of the encoder's output (json.Marshal/Encode of a string never fail; Encoder.Encode ends its output with "\n").
+	n := 0
+	for _, p := range paths {
+		if p.Why != "" || p.End != "return" || len(p.Vals) != 1 {
+			return "", "helper is not a straight-line encoder (a data-dependent shortcut emits text the encoder never saw)"
+		}
+		cls, w, feasible := c.encoderPath(p, par)
+		if !feasible {
+			continue
+		}
+		if w != "" {
+			return "", w
+		}
+		if class != "" && cls != class {
+			return "", "paths of the helper use different encoders"
+		}
+		class = cls
+		n++
 	}
-	p := paths[0]
-	ret := c.normByteStrings(p.Vals[0])
-	// shape A: string(json.Marshal(x)#0)
-	if cv, ok := ret.(TConv); ok && isStringType(cv.To) {
-		if pr, ok := cv.X.(TProj); ok && pr.K == 0 {
-			if call, ok := pr.X.(TCall); ok && call.Fun != nil && call.Fun.FullName() == "encoding/json.Marshal" && len(call.Args) == 1 && isParamTerm(call.Args[0], par) {
-				return "json", ""
+	if n == 0 {
+		return "", "helper has no feasible path"
+	}
+	return class, ""
+}
+
+// encBufString: t is <buffer>.String() (or string(<buffer>.Bytes())) of the buffer the helper's encoder writes.
+func encBufString(c *Ctx, t Term, bufT Term) bool {
+	t = c.normByteStrings(t)
+	bs, ok := t.(TCall)
+	return ok && bufT != nil && bs.Fun != nil && bs.Fun.Name() == "String" && bs.Recv != nil && len(bs.Args) == 0 && sameBuffer(bs.Recv, bufT)
+}
+
+// encCond: truth of a condition over the encoder's output E = <encoded>+"\n" / over the encoder's error (T, F) or U.
+func encCond(c *Ctx, t Term, bufT Term, par types.Object) Tri {
+	t = simplify(t)
+	if u, ok := t.(TUn); ok && u.Op == token.NOT {
+		switch encCond(c, u.X, bufT, par) {
+		case T:
+			return F
+		case F:
+			return T
+		}
+		return U
+	}
+	isE := func(x Term) bool { return encBufString(c, x, bufT) }
+	isLenE := func(x Term) bool {
+		b, ok := x.(TBuiltin)
+		return ok && b.Name == "len" && len(b.Args) == 1 && isE(b.Args[0])
+	}
+	switch x := t.(type) {
+	case TCall:
+		if x.Fun != nil && x.Fun.FullName() == "strings.HasSuffix" && len(x.Args) == 2 && isE(x.Args[0]) {
+			if sfx, ok := isConstStringTerm(x.Args[1]); ok && (sfx == "\n" || sfx == "") {
+				return T
+			}
+		}
+	case TBin:
+		l, r := x.X, x.Y
+		op := x.Op
+		if _, isNil := l.(TNil); isNil {
+			l, r = r, l
+		}
+		if _, isNil := r.(TNil); isNil && (op == token.EQL || op == token.NEQ) {
+			// the error of json.Marshal(par) / enc.Encode(par): a string always encodes
+			never := false
+			if pr, ok := l.(TProj); ok && pr.K == 1 {
+				if call, ok := pr.X.(TCall); ok && call.Fun != nil && call.Fun.FullName() == "encoding/json.Marshal" && len(call.Args) == 1 && isParamTerm(call.Args[0], par) {
+					never = true
+				}
+			}
+			if call, ok := l.(TCall); ok && call.Fun != nil && call.Fun.FullName() == "(*encoding/json.Encoder).Encode" && len(call.Args) == 1 && isParamTerm(call.Args[0], par) {
+				never = true
+			}
+			if never {
+				if op == token.EQL {
+					return T
+				}
+				return F
+			}
+			return U
+		}
+		// len(E) against a constant: len(E) >= 1
+		if k, ok := constInt(r); ok && isLenE(l) {
+			switch {
+			case op == token.GTR && k <= 0, op == token.GEQ && k <= 1, op == token.NEQ && k <= 0:
+				return T
+			case op == token.EQL && k <= 0, op == token.LSS && k <= 1, op == token.LEQ && k <= 0:
+				return F
+			}
+			return U
+		}
+		if s, ok := isConstStringTerm(r); ok && s == "" && isE(l) {
+			if op == token.NEQ {
+				return T
+			}
+			if op == token.EQL {
+				return F
+			}
+		}
+		// E[len(E)-1] == '\n'
+		if k, ok := constInt(r); ok && k == '\n' {
+			if ix, ok := l.(TIndex); ok && isE(ix.X) {
+				if b, ok := simplify(ix.I).(TBin); ok && b.Op == token.SUB && isLenE(b.X) {
+					if one, ok := constInt(b.Y); ok && one == 1 {
+						if op == token.EQL {
+							return T
+						}
+						if op == token.NEQ {
+							return F
+						}
+					}
+				}
 			}
 		}
 	}
-	// a Go-syntax quoter applied directly
-	if call, ok := ret.(TCall); ok && call.Fun != nil {
-		if cls := stringEncoderClass(call.Fun.FullName()); cls == "go-syntax" && len(call.Args) == 1 && isParamTerm(call.Args[0], par) {
-			return "go-syntax", ""
-		}
-	}
-	// shape B
+	return U
+}
+
+// encoderPath judges one path of a string-encoder helper.
+func (c *Ctx) encoderPath(p *Path, par types.Object) (class, why string, feasible bool) {
+	ret := c.normByteStrings(p.Vals[0])
+	// shape B's encoder and buffer, from the effects
 	var encT, bufT Term
 	encoded := false
+	effWhy := ""
 	for _, s := range p.Effects() {
 		if s.Kind != "call" || s.Call == nil || s.Call.Fun == nil {
 			if s.Kind == "store" {
 				continue // zero-initialisation of the local buffer
 			}
-			return "", "unexpected effect in the helper"
+			effWhy = "unexpected effect in the helper"
+			break
 		}
 		switch s.Call.Fun.FullName() {
 		case "encoding/json.NewEncoder":
 			if encT != nil || len(s.Call.Args) != 1 {
-				return "", "more than one encoder"
+				effWhy = "more than one encoder"
+				break
 			}
 			encT, bufT = *s.Call, s.Call.Args[0]
 			ownBuf := false
@@ -130,39 +237,90 @@ func (c *Ctx) stringHelperClass(fn *types.Func) (class, why string) {
 				ownBuf = b.Fun != nil && (b.Fun.FullName() == "bytes.NewBuffer" || b.Fun.FullName() == "bytes.NewBufferString")
 			}
 			if !ownBuf {
-				return "", "the encoder does not write into the helper's own local buffer"
+				effWhy = "the encoder does not write into the helper's own local buffer"
 			}
 		case "(*encoding/json.Encoder).SetEscapeHTML":
 		case "(*encoding/json.Encoder).Encode":
 			if encoded || len(s.Call.Args) != 1 || !isParamTerm(s.Call.Args[0], par) || encT == nil || !sameTerm(s.Call.Recv, encT) {
-				return "", "Encode is not applied exactly once to the helper's parameter"
+				effWhy = "Encode is not applied exactly once to the helper's parameter"
 			}
 			encoded = true
 		case "(*strings.Builder).Grow", "(*bytes.Buffer).Grow":
+		case "encoding/json.Marshal":
+			if len(s.Call.Args) != 1 || !isParamTerm(s.Call.Args[0], par) {
+				effWhy = "unexpected call " + s.Call.Fun.FullName()
+			}
 		default:
-			return "", "unexpected call " + s.Call.Fun.FullName()
+			effWhy = "unexpected call " + s.Call.Fun.FullName()
+		}
+		if effWhy != "" {
+			break
 		}
 	}
+	for _, cd := range p.Conds() {
+		v := U
+		if effWhy == "" {
+			v = encCond(c, cd.T, bufT, par)
+		}
+		if v == U {
+			return "", "helper is not a straight-line encoder (a data-dependent shortcut emits text the encoder never saw)", true
+		}
+		if (v == T) != cd.Truth {
+			return "", "", false
+		}
+	}
+	// shape A: string(json.Marshal(x)#0)
+	if cv, ok := ret.(TConv); ok && isStringType(cv.To) {
+		if pr, ok := cv.X.(TProj); ok && pr.K == 0 {
+			if call, ok := pr.X.(TCall); ok && call.Fun != nil && call.Fun.FullName() == "encoding/json.Marshal" && len(call.Args) == 1 && isParamTerm(call.Args[0], par) {
+				return "json", "", true
+			}
+		}
+	}
+	// a Go-syntax quoter applied directly
+	if call, ok := ret.(TCall); ok && call.Fun != nil {
+		if cls := stringEncoderClass(call.Fun.FullName()); cls == "go-syntax" && len(call.Args) == 1 && isParamTerm(call.Args[0], par) {
+			return "go-syntax", "", true
+		}
+	}
+	// shape B
+	if effWhy != "" {
+		return "", effWhy, true
+	}
 	if !encoded {
-		return "", "helper matches no accepted encoder shape"
+		return "", "helper matches no accepted encoder shape", true
+	}
+	// the returned text is E without its final "\n": TrimSuffix/TrimRight(E, "\n") or E[:len(E)-1]
+	if sl, ok := ret.(TSlice); ok && sl.Max == nil && encBufString(c, sl.X, bufT) {
+		lo0 := sl.Lo == nil
+		if k, ok := constInt(sl.Lo); sl.Lo != nil && ok && k == 0 {
+			lo0 = true
+		}
+		if b, ok := simplify(sl.Hi).(TBin); sl.Hi != nil && ok && lo0 && b.Op == token.SUB {
+			if lb, ok := b.X.(TBuiltin); ok && lb.Name == "len" && len(lb.Args) == 1 && encBufString(c, lb.Args[0], bufT) {
+				if one, ok := constInt(simplify(b.Y)); ok && one == 1 {
+					return "json", "", true
+				}
+			}
+		}
+		return "", "the slice of the encoder's output does not remove exactly the trailing newline", true
 	}
 	trim, ok := ret.(TCall)
 	if !ok || trim.Fun == nil || len(trim.Args) != 2 {
-		return "", "the trailing newline appended by Encoder.Encode is not trimmed"
+		return "", "the trailing newline appended by Encoder.Encode is not trimmed", true
 	}
 	switch trim.Fun.FullName() {
 	case "strings.TrimSuffix", "strings.TrimRight":
 	default:
-		return "", "the trailing newline appended by Encoder.Encode is not trimmed with strings.TrimSuffix(…, \"\\n\")"
+		return "", "the trailing newline appended by Encoder.Encode is not trimmed with strings.TrimSuffix(…, \"\\n\")", true
 	}
 	if sfx, ok := isConstStringTerm(trim.Args[1]); !ok || sfx != "\n" {
-		return "", "the trim does not remove exactly the trailing newline"
+		return "", "the trim does not remove exactly the trailing newline", true
 	}
-	bs, ok := trim.Args[0].(TCall)
-	if !ok || bs.Fun == nil || bs.Fun.Name() != "String" || bs.Recv == nil || !sameBuffer(bs.Recv, bufT) {
-		return "", "helper does not return the content of the buffer the encoder wrote"
+	if !encBufString(c, trim.Args[0], bufT) {
+		return "", "helper does not return the content of the buffer the encoder wrote", true
 	}
-	return "json", ""
+	return "json", "", true
 }
 
 // ---------------------------------------------------------------- token emission
@@ -171,6 +329,7 @@ type sTok struct {
 	Kind string // C (constant), CHILD, KEY, BAD
 	Text string
 	Enc  *types.Func
+	At   int64 // CHILD, KEY: the iteration of the range over the spine whose element this is
 }
 
 func tokStr(ts []sTok) string {
@@ -217,6 +376,7 @@ type emitter struct {
 	valVar  types.Object
 	serName string
 	why     string
+	iter    int64 // current iteration of the range over the receiver's spine
 }
 
 func bufKey(t Term) string {
@@ -252,6 +412,16 @@ func (e *emitter) tokens(t Term) []sTok {
 	case TLoop:
 		if ts, ok := e.strs[key(TVar{x.Obj})]; ok {
 			return append([]sTok(nil), ts...)
+		}
+	case TIndex:
+		// parts[i]: an item of the accumulated / made string slice
+		if items, ok := e.listOf(x.X); ok {
+			te := &termEnv{hook: e.hook}
+			i, okI := te.int(x.I)
+			if !okI || i < 0 || int(i) >= len(items) {
+				return e.bad("item slice read at an index that cannot be folded or is out of range: " + c.termStr(t))
+			}
+			return append([]sTok(nil), items[i]...)
 		}
 	case TCall:
 		if x.Fun == nil {
@@ -295,12 +465,12 @@ func (e *emitter) tokens(t Term) []sTok {
 			}
 			return out
 		case x.Recv != nil && len(x.Args) == 0 && x.Fun.Name() == e.serName && e.valVar != nil && isParamTerm(x.Recv, e.valVar):
-			return []sTok{{Kind: "CHILD"}}
+			return []sTok{{Kind: "CHILD", At: e.iter}}
 		case x.Recv == nil && len(x.Args) == 1 && e.keyVar != nil && isParamTerm(x.Args[0], e.keyVar):
 			cls, why := c.stringHelperClass(x.Fun)
 			switch cls {
 			case "json":
-				return []sTok{{Kind: "KEY", Enc: x.Fun}}
+				return []sTok{{Kind: "KEY", Enc: x.Fun, At: e.iter}}
 			case "go-syntax":
 				return e.bad(x.Fun.FullName() + " emits Go literal syntax (\\x01, \\a, \\v, \\U…), which is not JSON")
 			default:
@@ -309,6 +479,23 @@ func (e *emitter) tokens(t Term) []sTok {
 		}
 	}
 	return e.bad("token source not understood: " + c.termStr(t))
+}
+
+// listOf: the items of the string slice t denotes (an accumulated slice variable or a slice made in this call).
+func (e *emitter) listOf(t Term) ([][]sTok, bool) {
+	switch l := t.(type) {
+	case TLoop:
+		items, ok := e.lists[key(TVar{l.Obj})]
+		return items, ok
+	case TVar:
+		items, ok := e.lists[key(l)]
+		return items, ok
+	case TBuiltin:
+		if l.Name == "make" {
+			return e.madeList(l)
+		}
+	}
+	return nil, false
 }
 
 // madeList: the items of a local []string created by make([]string, len[, cap]) in this call (len folded; items start empty).
@@ -386,6 +573,11 @@ func (e *emitter) hook(t Term) (int64, bool) {
 	if e.v.isCountOfRecv(t) {
 		return e.n, true
 	}
+	if b, ok := t.(TBuiltin); ok && b.Name == "len" && len(b.Args) == 1 {
+		if items, ok := e.listOf(b.Args[0]); ok {
+			return int64(len(items)), true
+		}
+	}
 	return 0, false
 }
 
@@ -460,14 +652,25 @@ func (e *emitter) steps(steps []Step) bool {
 
 // loop unrolls the range over the receiver's spine for n elements.
 func (e *emitter) loop(l *LoopRec) bool {
-	if r := e.v.asRange(l); r != nil {
+	if r := e.v.asRange(l); r != nil && (l.Range != nil || e.v.isRecvSpine(r.Over)) {
 		l = r
 	}
+	counted := false
 	if l.Range == nil || !e.v.isRecvSpine(l.Over) {
-		e.why = "a loop that does not range over the receiver's own spine"
-		return false
+		// a counted loop over already accumulated items (for i := 0; i < len(parts); i++): unrolled while its condition holds
+		if l.For == nil || l.CondT == nil {
+			e.why = "a loop that does not range over the receiver's own spine"
+			return false
+		}
+		counted = true
 	}
-	e.keyVar, e.valVar = l.Key, l.Value
+	saveK, saveV := e.keyVar, e.valVar
+	defer func() { e.keyVar, e.valVar, e.iter = saveK, saveV, -1 }()
+	if counted {
+		e.keyVar, e.valVar = nil, nil
+	} else {
+		e.keyVar, e.valVar = l.Key, l.Value
+	}
 	// initial values of loop-carried variables
 	for o, t := range l.Init {
 		k := key(TVar{o})
@@ -496,8 +699,26 @@ func (e *emitter) loop(l *LoopRec) bool {
 			}
 		}
 	}
-	for t := int64(0); t < e.n; t++ {
-		if l.Key != nil && isIntType(l.Key.Type()) {
+	for t := int64(0); counted || t < e.n; t++ {
+		if counted {
+			if t > 64 {
+				e.why = "a counted loop that does not terminate within 64 iterations"
+				return false
+			}
+			te := &termEnv{hook: e.hook, bhook: e.bhook}
+			more, ok := te.bool(l.CondT)
+			if !ok {
+				e.why = "a loop that does not range over the receiver's own spine and whose condition cannot be folded: " + te.fail
+				return false
+			}
+			if !more {
+				break
+			}
+			e.iter = -1
+		} else {
+			e.iter = t
+		}
+		if l.Key != nil && isIntType(l.Key.Type()) && !counted {
 			e.ints[key(TVar{l.Key})] = t
 		}
 		var sel *Path
@@ -594,6 +815,22 @@ func (e *emitter) loop(l *LoopRec) bool {
 		for k, v := range nextBools {
 			e.bools[k] = v
 		}
+		if counted && l.Post != nil {
+			ints := map[types.Object]int64{}
+			for o := range l.Init {
+				if v, ok := e.ints[key(TVar{o})]; ok {
+					ints[o] = v
+				}
+			}
+			sim := &loopSim{c: e.c, l: l, state: ints}
+			if !sim.post() {
+				e.why = "counted loop: " + sim.why
+				return false
+			}
+			for o, v := range sim.state {
+				e.ints[key(TVar{o})] = v
+			}
+		}
 	}
 	return true
 }
@@ -615,7 +852,7 @@ func (c *Ctx) emitted(fd *ast.FuncDecl, paths []*Path, n int64) ([]sTok, string)
 	if main == nil {
 		return nil, "no path"
 	}
-	e := &emitter{c: c, v: v, fd: fd, n: n, bools: map[string]bool{}, ints: map[string]int64{}, bufs: map[string][]sTok{}, lists: map[string][][]sTok{}, strs: map[string][]sTok{}, serName: c.FuncObj(fd).Name()}
+	e := &emitter{c: c, v: v, fd: fd, n: n, iter: -1, bools: map[string]bool{}, ints: map[string]int64{}, bufs: map[string][]sTok{}, lists: map[string][][]sTok{}, strs: map[string][]sTok{}, serName: c.FuncObj(fd).Name()}
 	for _, cd := range main.Conds() {
 		_ = cd
 		return nil, "a decision outside the loop"
@@ -699,6 +936,24 @@ func c02Container(c *Ctx, ct *Cont) {
 		}
 		if tokStr(got) != tokStr(want) && badEmit == "" {
 			bad = "with " + itoa(int(n)) + " element(s) the emitted text is  " + tokStr(got) + "  — expected  " + tokStr(want)
+		}
+		if bad == "" && badEmit == "" {
+			// each element once, in range order: the k-th KEY and the k-th CHILD are those of iteration k
+			nk, nc := int64(0), int64(0)
+			for _, t := range got {
+				switch t.Kind {
+				case "KEY":
+					if t.At != nk {
+						bad = "with " + itoa(int(n)) + " element(s) the " + itoa(int(nk)+1) + ". key emitted is that of range iteration " + itoa(int(t.At)+1) + ": keys and values are not emitted pairwise in range order"
+					}
+					nk++
+				case "CHILD":
+					if t.At != nc {
+						bad = "with " + itoa(int(n)) + " element(s) the " + itoa(int(nc)+1) + ". value emitted is that of range iteration " + itoa(int(t.At)+1) + ": an element is duplicated, dropped or out of order"
+					}
+					nc++
+				}
+			}
 		}
 		if n == 2 {
 			sample = tokStr(got)
@@ -956,6 +1211,66 @@ func c02Scalars(c *Ctx) {
 		ob := c.Ob(serRule("C02.R1"), name, fd.Pos())
 		paths := c.serSX().Run(fd)
 		v := c.view(fd)
+		if kind == "bool" && len(paths) > 1 {
+			// a branching serialiser: folded for both payloads
+			bad := ""
+			for _, b := range []bool{true, false} {
+				hook := func(t Term) (sval, bool) {
+					if v.isPayloadTerm(t) {
+						return sval{K: 'b', B: b}, true
+					}
+					return sval{}, false
+				}
+				got, n := "", 0
+				for _, p := range paths {
+					if p.Why != "" || p.End != "return" || len(p.Vals) != 1 || len(p.Effects()) != 0 {
+						bad = "a path of the serialiser is not an effect-free return"
+						break
+					}
+					feasible := true
+					for _, cd := range p.Conds() {
+						e := &strEnv{hook: hook}
+						cv, ok := e.val(cd.T)
+						if !ok || cv.K != 'b' {
+							bad = "a condition of the serialiser is not a function of the payload: " + c.termStr(cd.T)
+							break
+						}
+						if cv.B != cd.Truth {
+							feasible = false
+							break
+						}
+					}
+					if bad != "" {
+						break
+					}
+					if !feasible {
+						continue
+					}
+					e := &strEnv{hook: hook}
+					rv, ok := e.val(p.Vals[0])
+					if !ok || rv.K != 's' {
+						bad = "the returned text is not a function of the payload: " + c.termStr(p.Vals[0])
+						break
+					}
+					got = rv.S
+					n++
+				}
+				if bad == "" && (n != 1 || got != strconv.FormatBool(b)) {
+					bad = "payload " + strconv.FormatBool(b) + " is emitted as " + strconv.Quote(got)
+				}
+				if bad != "" {
+					break
+				}
+			}
+			if strings.HasPrefix(bad, "payload") {
+				ob.Fail("bool wrapper does not emit true|false for its payload: %s", bad)
+			} else if bad != "" {
+				ob.Undecided("%s", bad)
+			} else {
+				ob.Ok("folded for both payloads over %d paths: emits true for true and false for false", len(paths))
+			}
+			continue
+		}
 		if len(paths) != 1 || paths[0].Why != "" || paths[0].End != "return" || len(paths[0].Vals) != 1 || len(paths[0].Effects()) != 0 {
 			ob.Undecided("serialiser is not a single effect-free return")
 			continue
